@@ -306,10 +306,18 @@ def check_coupling(ctx, only_localisable=False):
             subj = [c for c in ast.walk(l) if is_call_to(c, "subject_to")]
             tgt = l.target.elts[0].id if isinstance(l.target, ast.Tuple) else None
             ok = ok and len(subj) == 1 and subj[0].args and ast.unparse(subj[0].args[0]) == tgt
-            # only parametric rows may be skipped
+            # only parametric rows may be skipped (by a guard around subject_to or by an early continue)
+            skips = []
             for s in subj:
-                gs = scg.guards(s)
-                ok = ok and all("is_parametric" in ast.unparse(t) and pol is False or ("not" in ast.unparse(t) and "is_parametric" in ast.unparse(t) and pol) for t, pol in gs)
+                skips += [(t, not pol) for t, pol in scg.guard_conjuncts(s)]
+            for cnt in [x for x in ast.walk(l) if isinstance(x, ast.Continue)]:
+                gsc = scg.guards(cnt)
+                inner = [(t, pol) for t, pol in gsc if scg.within(t, l)]
+                skips += inner
+            for t, pol in skips:
+                txt = ast.unparse(t).replace(" ", "")
+                okf = pol is True and txt.endswith("is_parametric(%s)" % tgt) and (txt.startswith("advanced.") or txt.startswith("opti.advanced."))
+                ok = ok and okf
     ctx.check(ok, "add_coupling_constraints forwards every bounds_T row", detail="rows of bounds_T dropped or mis-addressed",
               expected="for c,kw in self.time_grid.bounds_T(self.T_local, self.t0_local, k, self.T, self.N): opti.subject_to(c) unless parametric", found=found, fi=g)
 
@@ -600,3 +608,61 @@ def r06_8(ctx):
     uses = [s for s in walk_no_nested(nz.node) if isinstance(s, ast.Subscript) and ast.unparse(s.value) == "self.cache"]
     ok = bool(uses) and all(ast.unparse(s.slice) == nz.params[1] for s in uses)
     ctx.check(ok, "DensityGrid cache is keyed by N on the instance", detail="cache key", expected="self.cache[N]", found="; ".join(ast.unparse(s) for s in uses), fi=nz)
+
+
+def bounded_quantity(y):
+    """the middle expression M of a yielded row `self.min <= (M <= self.max)`"""
+    v = y.value
+    row = v.elts[0] if isinstance(v, ast.Tuple) and v.elts else v
+    if isinstance(row, ast.Compare) and len(row.ops) == 1 and isinstance(row.comparators[0], ast.Compare) and len(row.comparators[0].ops) == 1:
+        return row.comparators[0].left
+    if isinstance(row, ast.Compare) and len(row.ops) == 2:
+        return row.comparators[0]
+    return None
+
+
+@rule("R06.9", min_instances=6, desc="the quantity bounded by min/max is the length of the interval the row is emitted for (T_local[k] when localised, T*(n[k+1]-n[k]) otherwise)")
+def r06_9(ctx):
+    from ..ceval import ceval, Unknown
+    prog = ctx.prog
+    NN = 5
+    for cname in ("UniformGrid", "GeometricGrid", "FreeGrid"):
+        f = prog.own_method(cname, "bounds_T")
+        sc = ctx.scope(f)
+        T_local, t0_local, k, T, Np = f.params[1:6]
+        for y in [y for y in walk_no_nested(f.node) if is_bound_yield(y)]:
+            m = bounded_quantity(y)
+            if m is None:
+                ctx.fail("%s.bounds_T bound row" % cname, detail="unrecognised bound row", expected="self.min <= (length <= self.max)", found=ast.unparse(y.value)[:80], fi=f, node=y)
+                continue
+            # for which k is this row emitted?
+            ks = []
+            for kv in range(NN):
+                try:
+                    if all(bool(ceval(t, {k: kv, Np: NN}, sc)) == p for t, p in sc.guard_conjuncts(y) if k in {x.id for x in ast.walk(t) if isinstance(x, ast.Name)}):
+                        ks.append(kv)
+                except Unknown:
+                    ks.append(kv)
+            n = Norm(sc, no_expand=(T_local, T, Np, k))
+            pm = n.poly(m)
+            good = True
+            why = ""
+            for kv in ks:
+                # accepted forms for interval kv
+                acc = [expected("%s[%d]" % (T_local, kv)), expected("%s[%s]" % (T_local, k))]
+                if kv == NN - 1:
+                    acc.append(expected("%s[-1]" % T_local))
+                nrm = "self.normalized(%s)" % Np
+                forms = ["%s*(%s[%d]-%s[%d])" % (T, nrm, kv + 1, nrm, kv), "%s*(%s[%s+1]-%s[%s])" % (T, nrm, k, nrm, k)]
+                if kv == 0:
+                    forms.append("%s*%s[1]" % (T, nrm))
+                if kv == NN - 1:
+                    forms += ["%s*(%s[-1]-%s[-2])" % (T, nrm, nrm), "%s*(1-%s[-2])" % (T, nrm)]
+                acc += [expected(t) for t in forms]
+                if cname == "UniformGrid":
+                    acc.append(expected("%s/%s" % (T, Np)))
+                if pm not in acc:
+                    good = False
+                    why = "for k=%d" % kv
+            ctx.check(good and bool(ks), "%s.bounds_T bounds the length of its own interval (%s)" % (cname, ast.unparse(m)[:40]), detail="min/max applied to the length of another interval",
+                      expected="T_local[k] or T*(n[k+1]-n[k]) for the k at which the row is emitted", found="%s %s" % (pm, why), fi=f, node=y, sample={"bounded": str(pm), "k": ks})
